@@ -1,3 +1,4 @@
+import RavenModel.Model.MimeHeader
 import RavenModel.Model.MimeWriter
 import RavenModel.Model.Mime
 import RavenModel.Model.PartTree
@@ -146,5 +147,15 @@ theorem repaired_tree_as_written (K : Mime.HeaderReader) (fuel : Nat) (s : Mime.
     (ha : Mime.assign fuel s = some t) (hb : Mime.basesOK s = true) (hr : Mime.headersRead K t = true)
     (hf : Mime.depth t ≤ f) : Mime.parse K f (Mime.core t) = some t :=
   Mime.repaired_tree_reads_back K fuel s t f ha hb hr hf
+
+/-- C02.8  the header-reading part of the side condition, for the concrete reader (`Mime.readHeader`: the first empty line
+ends the header block; a `Content-Type: multipart/…` field with a `; boundary="…"` parameter makes a container): the container
+header the writer produces is read back as written — header block, boundary, body — for every media type `multipart/<subtype>`
+and boundary free of carriage returns, semicolons and double quotes (the writer's are), and **whatever the body**. What stays a
+hypothesis of `repaired_tree_as_written` is only that no leaf's own header makes it a container. -/
+theorem reader_reads_writer_headers (top : Bool) (ctype b body sub : Bytes) (hc : 13 ∉ ctype) (hs : 59 ∉ ctype) (hb : 13 ∉ b)
+    (hq : 34 ∉ b) (hm : toLower ctype = (b!"multipart/") ++ sub) :
+    Mime.readHeader (Mime.containerHeader top ctype b ++ body) = some (Mime.containerHeader top ctype b, b, body) :=
+  Mime.readHeader_container top ctype b body sub hc hs hb hq hm
 
 end Raven.Props.C02
